@@ -46,8 +46,15 @@ def plan(seed, subbatch):
     pre, ops, fired, rows = planlib.stream_and_schedule(seed, subbatch, n, base_s, start, faults, burst,
                                                         p_empty, extras, max_span_s=1500 * tf_s, regimes=regimes,
                                                         regime_len=(1, 12))
+    lifespan = None
+    if subbatch == "faulty" and cfg.random() < 0.3:
+        # filling interacting with eviction: the expected series is the window of the filled reference
+        lifespan = tf_s * cfg.randint(2, 30)
+        fired["lifespan_configured"] += 1
+        if route == "hexital_member":
+            route = "hexital_level"   # member managers derived from trimmed base candles: known finding C08
     return {"format": 1, "property": ID, "seed": seed, "subbatch": subbatch,
-            "config": {"route": route, "tf": tf, "base_s": base_s},
+            "config": {"route": route, "tf": tf, "base_s": base_s, "lifespan_s": lifespan},
             "ops": [{"op": "new", "preload": pre}] + ops, "fired": dict(fired)}
 
 
@@ -56,6 +63,7 @@ def execute(trace, ctx=None):
         cfg = trace["config"]
         tf, route = cfg["tf"], cfg["route"]
         tf_s = tf_seconds(tf)
+        lifespan = cfg.get("lifespan_s")
         delivered = []
         subject = manager = view = None
         twin = tmanager = tview = None
@@ -69,8 +77,8 @@ def execute(trace, ctx=None):
                     rows = op.get("preload") or []
                     delivered.extend(rows)
                     span_n = (rows[-1][0] - rows[0][0]) // tf_s if rows else 0
-                    subject, manager, view = run.call(len(rows) + span_n, build_route, route, tf, rows, True)
-                    twin, tmanager, tview = build_route(route, tf, rows, False)
+                    subject, manager, view = run.call(len(rows) + span_n, build_route, route, tf, rows, True, lifespan)
+                    twin, tmanager, tview = build_route(route, tf, rows, False, lifespan)
                 elif subject is None:
                     continue
                 elif kind == "append":
@@ -96,6 +104,10 @@ def execute(trace, ctx=None):
             buckets = refmodels.resample(delivered, tf_s)
             want_rows, flags = refmodels.fill(buckets, tf_s)
             want = [tuple(r) for r in want_rows]
+            if lifespan is not None and want:
+                keep = refmodels.trim([w[0] for w in want], lifespan)
+                want = [want[k] for k in keep]
+                flags = [flags[k] for k in keep]
             run.observe(kind, got)
             for x in range(len(got) - 1):
                 if got[x + 1][0] - got[x][0] != tf_s:
